@@ -35,6 +35,17 @@ CHECKS = {
          "Trusted: mc/ref/hpke.py, mc/ref/ec.py, mc/ref/modes.py (self-tested against RFC 9180/7748/8439 vectors at setup). Values are fixed "
          "representatives; exhaustion uses the _sequence attribute as a white-box seam.",
          "DESIGN.md 3/C15"),
+ "C11": ("model_checking",
+         "explicit enumeration of counter layouts x initial values x call histories across the wrap limit, and of all seek/encrypt histories over boundary positions, against reference counter/keystream sequences",
+         "CTR: for counter width 1 every initial value (256) x 5 layouts x both endiannesses x 7 call patterns, width 2 run to the full 2^16 blocks, "
+         "width 3 to 2^24 blocks (thorough), widths 4..16 through the zero crossing and every carry position; every returned byte is checked "
+         "against the arithmetic counter sequence (counter blocks recovered by ECB decryption, edges re-checked with the pure-Python cipher) "
+         "and OverflowError must occur exactly where a block would repeat. ChaCha20/XChaCha20: every history over {seek(pos), encrypt(n)} with "
+         "23 boundary positions/lengths up to depth 4/5 on fresh objects against the reference stream. CCM length limits per nonce length and "
+         "HPKE per-message nonces. Complete within those bounds; the suite has single examples.",
+         "Trusted: mc/ref/chacha.py, aes.py, des.py. Limits needing >2^30 bytes of traffic (CTR width>=4, GCM, Salsa20) are out of reach "
+         "and stated in the evidence.",
+         "DESIGN.md 3/C11"),
 }
 NOT_YET = "check not built yet (work in progress in this session; see DESIGN.md section 3 for the planned bounded-exhaustive check)"
 man = {
